@@ -275,7 +275,7 @@ PROFILES_THOROUGH = PROFILES_QUICK + [
     ("p400", 400, {}),
     ("skew2", 400, {"S": 3, "U": 3}),
     ("skew3", 3, {"R": 400}),
-    ("p2000", 2000, {"R": 60}),
+    ("p1000", 1000, {"R": 60, "T": 20, "S": 200}),
 ]
 
 
@@ -364,8 +364,12 @@ def render_program(atoms, no_decomp, profile, steps, seed=0, rules=None, head=No
             lines.append("(relation %s (%s))" % (name, " ".join(tyname[t] for t in types[name][0])))
     for rs, (outrel, _) in sorted(rules.items()):
         lines.append("(relation %s (%s))" % (outrel, " ".join(tyname[var_type(v)] for v in vs)))
+        # <Out>S: the rows of <Out> whose i64 components are all in the small range (profile rows can produce
+        # millions of Out rows; only the small-range ones are compared, and print-function truncates)
+        lines.append("(relation %sS (%s))" % (outrel, " ".join(tyname[var_type(v)] for v in vs)))
     lines.append("(relation Trig (i64))")
     lines.append("(ruleset seed)")
+    lines.append("(ruleset filt)")
     for rs in sorted(rules):
         lines.append("(ruleset %s)" % rs)
     pname, default, over = profile
@@ -392,5 +396,10 @@ def render_program(atoms, no_decomp, profile, steps, seed=0, rules=None, head=No
     for cmd in tail or []:
         lines.append(cmd)
     for rs, (outrel, _) in sorted(rules.items()):
-        lines.append("(print-function %s 1000000)" % outrel)
+        hv = ["h%d" % i for i in range(len(vs))]
+        guards = " ".join("(< %s %d)" % (h, BIG) for h, v in zip(hv, vs) if var_type(v) == "i")
+        lines.append("(rule ((%s %s) %s) ((%sS %s)) :ruleset filt)" % (outrel, " ".join(hv), guards, outrel, " ".join(hv)))
+    lines.append("(run filt 1)")
+    for rs, (outrel, _) in sorted(rules.items()):
+        lines.append("(print-function %sS 1000000)" % outrel)
     return "\n".join(lines) + "\n"
